@@ -208,10 +208,68 @@ def w_long(ctx, wid, seed, examples):
     core.hyp_campaign(ctx, 'stdin-line-length', long_line_cases(), check_long, examples, seed, case_json)
 
 
+# ---- spend sessions (signature hashing happens): the result must not depend on delivery or on the debug options either
+@st.composite
+def spend_cli_cases(draw):
+    from ..gen import spends as S
+    rnd = draw(st.randoms(use_true_random=False))
+    typ = draw(st.sampled_from(['p2pkh', 'p2sh-multisig', 'p2wpkh', 'p2wsh', 'p2sh-p2wpkh', 'p2tr-key', 'p2tr-script', 'multisig']))
+    c = S.build(rnd, typ, ninputs=1 if typ.startswith('p2tr') else None)
+    corr = S.corrupt(c, draw(st.sampled_from(['none', 'none', 'none', 'sigbit', 'output'])), rnd)
+    if c['meta'].get('leafkind') == 'unknown-leaf-version':
+        corr = 'unknown-leaf-version'      # invalid under the standard flags (and refused by the tool)
+    areas = draw(st.lists(st.sampled_from(DEBUG_AREAS), min_size=1, max_size=4, unique=True))
+    return dict(tx=c['tx'].ser().hex(), txin=c['fund'].ser().hex(), type=typ, corr=corr, areas=areas)
+
+
+def spend_invoke(c, variant):
+    exe = cli.binpath('btcdeb')
+    base = ['--tx=' + c['tx'], '--txin=' + c['txin']]
+    if variant == 'pipe':
+        return cli.run(exe, base, stdin=b'\n')
+    if variant == 'pipe-quiet':
+        return cli.run(exe, ['--quiet'] + base, stdin=b'\n')
+    if variant == 'tty-debug':
+        return cli.run(exe, ['--debug=' + ','.join(c['areas'])] + base, stdin_tty=True)
+    if variant == 'tty-env':
+        return cli.run(exe, base, stdin_tty=True, env=cli.base_env({'DEBUG_' + a.upper(): '1' for a in c['areas']}))
+    if variant == 'outtty-debug':
+        return cli.run(exe, ['--debug=' + ','.join(c['areas'])] + base, stdin=b'\n', stdout_tty=True)
+    raise ValueError(variant)
+
+
+def check_spend_cli(c, ctx):
+    ctx.case(repr(c), True, dict(type=c['type'], corruption=c['corr'], debug_areas=c['areas']), 'spend:' + c['type'])
+    try:
+        ref = spend_invoke(c, 'pipe')
+        if ref.timed_out:
+            raise core.Inconclusive()
+        if ref.abnormal:
+            raise Violation(c, 'spend session terminated abnormally (%s)' % ref.abnormal, observed=repr(ref))
+        for v in ('pipe-quiet', 'tty-debug', 'tty-env', 'outtty-debug'):
+            r = spend_invoke(c, v)
+            if r.timed_out:
+                raise core.Inconclusive()
+            if r.abnormal:
+                raise Violation(c, 'spend session terminated abnormally (%s) in variant %s' % (r.abnormal, v), observed=repr(r))
+            ctx.count('spend-variant:' + v)
+            if r.rc != ref.rc or (ref.rc == 0 and r.out != ref.out):
+                raise Violation(c, 'the reported result of a %s spend depends on delivery / debug options (%s with %s): exit %s stdout %r vs exit %s stdout %r' % (
+                    c['type'], v, c['areas'], r.rc, r.out[:120], ref.rc, ref.out[:120]), observed=[r.rc, r.out.decode(errors='replace')[:300]], expected=[ref.rc, ref.out.decode(errors='replace')[:300]])
+        if c['corr'] == 'none' and (ref.rc != 0 or ref.out.strip().splitlines()[-1:] != [b'01']):
+            raise Violation(c, 'a valid %s spend does not end with exit 0 and the stack 01' % c['type'], observed=[ref.rc, ref.out[-100:], ref.err[-200:]])
+    except core.Inconclusive:
+        ctx.inconclusive += 1
+
+
+def w_spend_cli(ctx, wid, seed, examples):
+    core.hyp_campaign(ctx, 'spend-cli', spend_cli_cases(), check_spend_cli, examples, seed, lambda c: c)
+
+
 def run(tier, t0):
     W = core.WORKERS
     n = 600 if tier == "quick" else 8000
-    tasks = [(w_cli, dict(examples=n)) for _ in range(W)] + [(w_repl, dict(examples=max(10, n // 12))) for _ in range(max(2, W // 4))] + [(w_long, dict(examples=30))]
+    tasks = [(w_cli, dict(examples=n)) for _ in range(W)] + [(w_repl, dict(examples=max(10, n // 12))) for _ in range(max(2, W // 4))] + [(w_long, dict(examples=30))] + [(w_spend_cli, dict(examples=max(25, n // 10))) for _ in range(max(2, W // 4))]
     m = core.parallel(PID, tasks)
     return core.finish(PID, tier, m, RULE, t0, min_nontrivial=500 if tier == 'quick' else 20000,
                        assumptions=['reference interpreter for the expected outcome', 'scripts are passed as 0x<hex> and stack items as 0x<hex> (forms that cannot be mistaken for options or numbers)',
@@ -219,6 +277,12 @@ def run(tier, t0):
 
 
 def replay(rec):
+    if rec.get('campaign') == 'spend-cli':
+        try:
+            check_spend_cli(rec['case'], core.Ctx(PID))
+        except Violation as v:
+            return False, 'still failing: %s' % v.why
+        return True, 'ok'
     c = case_from_json(rec['case'])
     ctx = core.Ctx(PID)
     try:
@@ -226,6 +290,9 @@ def replay(rec):
             check_interactive(c, ctx)
         elif rec.get('campaign') == 'stdin-line-length':
             check_long(c, ctx)
+        elif rec.get('campaign') == 'spend-cli':
+            check_spend_cli(rec['case'], ctx)
+            return True, 'ok'
         else:
             check_case(c, ctx)
     except Violation as v:
